@@ -2,7 +2,7 @@
 from ..facts import AnchorMissing, callee_def, op_place, op_const, is_bare
 from ..util import (SUBR, RTRAIT, ends, site, fn_key, callee_method, require, has_call, has_field, find_dispatch,
                     transitive_closures, closure_bodies_created_in, edge_is_true, src_field, edges_where,
-                    unreachable_without_edges, direct_field, consumer_of_ref, field_accesses, effects_in)
+                    unreachable_without_edges, direct_field, consumer_of_ref, field_accesses, effects_in, direct_place)
 from .. import options
 
 EXPLANATION = (
@@ -210,8 +210,8 @@ def rule_b(ctx):
         good = False
         for (a, s) in pt.cdeps_transitive(ws[0][0]):
             truth, src = edge_is_true(pt, a, s)
-            if src and src[0] == "bin" and src[1]["bin"] in ("Gt", "Lt") and truth is True:
-                good = True
+            if src and src[0] == "bin" and ((src[1]["bin"] in ("Gt", "Lt") and truth is True) or (src[1]["bin"] in ("Le", "Ge") and truth is False)):
+                good = True   # `if width > w { pad }` or `if width <= w { return }; pad`
         okc = good
     ctx.check(okc, "C15-B", "pad_to-only-appends-spaces-when-narrower", pt.span, pt.id, "calls: %s" % pcalls)
     pw = F.one("TaggedLine::<T>::push_ws")
@@ -371,43 +371,81 @@ TEXT_REWRITERS = ("split", "split_whitespace", "split_ascii_whitespace", "splitn
                   "join", "concat", "to_lowercase", "to_uppercase", "dedup", "step_by", "strip_prefix", "strip_suffix", "collect", "fold")
 
 
-def rule_d(ctx):
-    F = ctx.facts
+def strikeout_filter_shape(F):
+    """(problems, info): the filter copies every character and adds nothing but U+0336 — written as a loop
+    (`for c in s.chars() { out.push(c); if .. { out.push(U+0336) } }`) or as an iterator chain
+    (`s.chars().flat_map(|c| once(c).chain(cond.then_some(U+0336))).collect()`)."""
     b = F.one("render::text_renderer::filter_text_strikeout")
     bodies_ = [b] + [c for _x, c in transitive_closures(F, b)]
-    bad = sorted({callee_method(t) for x in bodies_ for _bb, t in x.calls() if callee_method(t) in TEXT_REWRITERS})
-    ctx.check(not bad, "C15-D", "strikeout-filter:no-text-rewriting", b.span, b.id,
-              "the filter uses %s: the struck text is re-assembled instead of being copied character by character" % bad)
+    problems = []
     ch = b.calls(lambda cd, t: callee_method(t) == "chars" and ("arg", 1) in b.atoms(t["args"][0]))
+    if len(ch) != 1:
+        return ["the filter does not walk s.chars() exactly once"], b
     nx = b.calls(lambda cd, t: callee_method(t) == "next" and "Chars<" in (callee_def(t) or ""))
-    if not ctx.check(len(ch) == 1 and len(nx) == 1, "C15-D", "strikeout-filter:walks-chars", b.span, b.id, ""):
-        return
-    nb = nx[0][0]
-    pushes = b.calls(lambda cd, t: callee_method(t) in ("push", "push_str", "extend", "insert", "insert_str") and "String" in (callee_def(t) or ""))
-    item, marks, other = [], [], []
-    for bb, t in pushes:
-        k = op_const(t["args"][1]) if len(t["args"]) > 1 else None
-        at = b.atoms(t["args"][1]) if len(t["args"]) > 1 else set()
-        if k is not None and k.get("int") == 0x336:
-            marks.append(bb)
-        elif callee_method(t) == "push" and has_call(at, "Iterator>::next", "::next") and not any(a[0] == "bin" for a in at):
-            item.append(bb)
+    fm = b.calls(lambda cd, t: callee_method(t) == "flat_map")
+    allowed_iter = ("flat_map", "collect") if (fm and not nx) else ()
+    bad = sorted({callee_method(t) for x in bodies_ for _bb, t in x.calls() if callee_method(t) in TEXT_REWRITERS and callee_method(t) not in allowed_iter})
+    if bad:
+        problems.append("the filter uses %s: the struck text is re-assembled instead of being copied character by character" % bad)
+    if nx:
+        nb = nx[0][0]
+        pushes = b.calls(lambda cd, t: callee_method(t) in ("push", "push_str", "extend", "insert", "insert_str") and "String" in (callee_def(t) or ""))
+        item, marks, other = [], [], []
+        for bb, t in pushes:
+            k = op_const(t["args"][1]) if len(t["args"]) > 1 else None
+            at = b.atoms(t["args"][1]) if len(t["args"]) > 1 else set()
+            if k is not None and k.get("int") == 0x336:
+                marks.append(bb)
+            elif callee_method(t) == "push" and has_call(at, "Iterator>::next", "::next") and not any(a[0] == "bin" for a in at):
+                item.append(bb)
+            else:
+                other.append(t["span"])
+        if other:
+            problems.append("other pushes at %s" % other)
+        if not item or not marks:
+            problems.append("the character itself / U+0336 is not pushed (%d / %d)" % (len(item), len(marks)))
+        some = None
+        for a in b.reach_from(nb):
+            if b.term(a)["k"] == "switch":
+                _neg, src = b.switch_source(a)
+                if src and src[0] == "discr" and src[1]["l"] == nx[0][1]["dest"]["l"]:
+                    tb = [tb for v, tb in b.term(a)["targets"] if v == 1]
+                    some = tb[0] if tb else None
+                    break
+        if some is None or nb in b.reach_from(some, avoid=item):
+            problems.append("a path through the loop skips the push of the character itself")
+    elif fm:
+        # iterator form: the flat_map closure yields once(c) followed by an optional U+0336
+        cpl = direct_place(b, fm[0][1]["args"][1])
+        sd = b.single_def(cpl["l"]) if cpl is not None and not cpl["p"] else None
+        cb = F.bodies.get(sd[3]["rv"].get("def")) if sd and sd[0] == "stmt" and sd[3]["rv"].get("agg") == "closure" else None
+        if cb is None or not b.calls(lambda cd, t: callee_method(t) == "collect"):
+            problems.append("flat_map(..).collect() shape not recognised")
         else:
-            other.append(t["span"])
-    ctx.check(not other, "C15-D", "strikeout-filter:pushes-only-the-character-and-U+0336", b.span, b.id, "other pushes at %s" % other)
-    ctx.floor("C15-D", "pushes of the struck character itself", len(item), 1)
-    ctx.floor("C15-D", "pushes of U+0336", len(marks), 1)
-    # the character is pushed on every path through the loop body
-    some = None
-    for a in b.reach_from(nb):
-        if b.term(a)["k"] == "switch":
-            _neg, src = b.switch_source(a)
-            if src and src[0] == "discr" and src[1]["l"] == nx[0][1]["dest"]["l"]:
-                tb = [tb for v, tb in b.term(a)["targets"] if v == 1]
-                some = tb[0] if tb else None
-                break
-    ctx.check(some is not None and nb not in b.reach_from(some, avoid=item), "C15-D", "strikeout-filter:every-character-kept", b.span, b.id,
-              "a path through the loop skips the push of the character itself")
+            onces = cb.calls(lambda cd, t: callee_method(t) == "once")
+            chains = cb.calls(lambda cd, t: callee_method(t) == "chain")
+            first_ok = len(onces) == 1 and ("arg", 2) in cb.atoms(onces[0][1]["args"][0]) and not any(a[0] == "bin" for a in cb.atoms(onces[0][1]["args"][0], through_calls=False))
+            consts = set()
+            for x in cb.reachable():
+                tt = cb.term(x)
+                ops_ = list(tt.get("args") or []) + [o for st in cb.stmts(x) for o in ((st.get("rv") or {}).get("ops") or []) + [(st.get("rv") or {}).get("use")] if o]
+                for o in ops_:
+                    k = op_const(o) if isinstance(o, dict) else None
+                    if k and k.get("ty") == "char":
+                        consts.add(k.get("int"))
+            chain_ok = len(chains) == 1 and has_call(cb.atoms(chains[0][1]["args"][0]), "::once")
+            if not (first_ok and chain_ok and consts == {0x336}):
+                problems.append("the flat_map closure must yield once(c) chained with an optional U+0336 (once=%d, chain=%d, char constants %s)"
+                                % (len(onces), len(chains), sorted(map(str, consts))))
+    else:
+        problems.append("neither a loop over chars() nor chars().flat_map(..).collect()")
+    return problems, b
+
+
+def rule_d(ctx):
+    F = ctx.facts
+    problems, b = strikeout_filter_shape(F)
+    ctx.check(not problems, "C15-D", "strikeout-filter:every-character-kept-only-U+0336-added", b.span, b.id, "; ".join(problems))
 
 
 def rule_c(ctx):
